@@ -342,6 +342,10 @@ pub fn mutating_sets() -> Vec<(&'static str, Value)> {
                                     {"sel":"div","element":obs,"text":obs}],
                            "doc":[{"end":obs}]})),
         ("m-endtag", json!({"elem":[{"sel":"*","element":[{"op":"on_end_tag","a":[[{"op":"remove"}]]}]}],"doc":[{"end":[{"op":"append","a":["<!--e-->"]}]}]})),
+        // attribute values that need escaping at their very start / twice in a row / at the end; empty values and names
+        ("m-attr-quotes", json!({"elem":[{"sel":"a","element":[{"op":"set_attr","a":["title","\"quoted\" t"]},{"op":"set_attr","a":["x","a\"\"b"]},{"op":"set_attr","a":["y","\""]},{"op":"set_attr","a":["z",""]}]},
+                                         {"sel":"p","element":[{"op":"set_attr","a":["q","\"\""]},{"op":"rm_attr","a":["id"]}]},
+                                         {"sel":"div","element":[{"op":"set_attr","a":["w","end\""]},{"op":"set_name","a":["section"]}]}]})),
     ]
 }
 
@@ -450,13 +454,24 @@ pub fn job_c12(out_dir: &str, tier: &str, seed: u64) {
         "failure_injection_runs": failure_runs, "memory_limit_runs": mem_runs}));
 }
 
-pub fn job_c15(out_dir: &str, tier: &str, seed: u64) {
+pub fn job_c15(out_dir: &str, tier: &str, seed: u64) { job_c15_impl(out_dir, tier, seed, None) }
+
+/// The pathological shapes run one per child process (`lh gen-c15-shape`), on a thread with a 1 MiB stack: stack
+/// exhaustion or an abort kills the child, not the job, and is recorded as a panic-like event of that shape.
+pub fn job_c15_shape_child(out_dir: &str, tier: &str, seed: u64, si: usize) {
+    let (o, t) = (out_dir.to_string(), tier.to_string());
+    let h = std::thread::Builder::new().stack_size(1 << 20).spawn(move || job_c15_impl(&o, &t, seed, Some(si))).unwrap();
+    if h.join().is_err() { std::process::exit(3); }
+}
+
+fn job_c15_impl(out_dir: &str, tier: &str, seed: u64, only: Option<usize>) {
     let quick = tier == "quick";
     let mut rng = Rng::new(seed ^ 0xC15);
-    let mut sh = Shards::new(out_dir, "c15", 6_000_000);
+    let prefix = match only { None => "c15".to_string(), Some(si) => format!("c15s{si}") };
+    let mut sh = Shards::new(out_dir, &prefix, 6_000_000);
     let mut sets = gen::observer_sets();
     sets.extend(mutating_sets());
-    let mut n = 0usize;
+    let mut n = match only { None => 0usize, Some(si) => 1_000_000 * (si + 1) };
     let mut max_us_per_kb = 0f64;
     let mut big_runs = 0usize;
     let mut growth_checks = 0usize;
@@ -483,6 +498,7 @@ pub fn job_c15(out_dir: &str, tier: &str, seed: u64) {
         sh.push(&rec, &src, Some(&key), true);
         dt
     };
+    if only.is_none() {
     // (1) random bytes, grammar-based and mutated inputs, random settings
     let nsmall = if quick { 6000 } else { 200000 };
     for i in 0..nsmall {
@@ -522,41 +538,74 @@ pub fn job_c15(out_dir: &str, tier: &str, seed: u64) {
         let input: &[u8] = b"<ul><li>a</li><li class=c>b<!--c--></li><li x=1>c</li></ul><a href=x><b></b></a>";
         emit(&mut sh, &cfg, input, &[rng.below(input.len())], &mut n, true);
     }
+    }
     // (2) pathological shapes; judged on lengths only; wall-clock per KiB observed
-    let scale = if quick { 1 } else { 4 };
-    let mut shapes: Vec<(String, Vec<u8>)> = Vec::new();
-    shapes.push(("deep-nesting".into(), b"<div>".repeat(25_000 * scale)));
-    shapes.push(("deep-nesting-mixed".into(), b"<a><b><svg><p>".repeat(8_000 * scale)));
-    shapes.push(("long-text".into(), vec![b'x'; 1_000_000 * scale]));
-    shapes.push(("long-tag-name".into(), { let mut v = b"<".to_vec(); v.extend(vec![b'a'; 300_000 * scale]); v.push(b'>'); v }));
-    shapes.push(("long-attr-value".into(), { let mut v = b"<a b='".to_vec(); v.extend(vec![b'v'; 300_000 * scale]); v.extend_from_slice(b"'>"); v }));
-    shapes.push(("many-attrs".into(), { let mut v = b"<a".to_vec(); for i in 0..(5000 * scale) { v.extend_from_slice(format!(" a{i}=v").as_bytes()); } v.push(b'>'); v }));
-    shapes.push(("long-comment".into(), { let mut v = b"<!--".to_vec(); v.extend(vec![b'-'; 300_000 * scale]); v.extend_from_slice(b"-->"); v }));
-    shapes.push(("unterminated-comment".into(), { let mut v = b"<!--".to_vec(); v.extend(vec![b'c'; 200_000 * scale]); v }));
-    shapes.push(("many-end-tags".into(), b"</x>".repeat(50_000 * scale)));
-    shapes.push(("lt-flood".into(), vec![b'<'; 200_000 * scale]));
-    shapes.push(("script-escapes".into(), { let mut v = b"<script>".to_vec(); v.extend(b"<!--<script></script>-->".repeat(10_000 * scale)); v }));
-    shapes.push(("cdata-flood".into(), { let mut v = b"<svg>".to_vec(); v.extend(b"<![CDATA[]]]]>".repeat(20_000 * scale)); v }));
-    shapes.push(("high-bytes".into(), (0..(300_000 * scale)).map(|i| 0x80 + (i % 0x80) as u8).collect()));
+    // every shape is a function of a size multiplier, so that the same shape at half the size can be measured
+    let build_shapes = |mult: f64| -> Vec<(String, Vec<u8>)> {
+        let sz = |n: usize| -> usize { ((n as f64) * mult) as usize };
+        let mut shapes: Vec<(String, Vec<u8>)> = Vec::new();
+    shapes.push(("deep-nesting".into(), b"<div>".repeat(sz(25_000))));
+        shapes.push(("deep-nesting-mixed".into(), b"<a><b><svg><p>".repeat(sz(8_000))));
+        shapes.push(("long-text".into(), vec![b'x'; sz(1_000_000)]));
+        shapes.push(("long-tag-name".into(), { let mut v = b"<".to_vec(); v.extend(vec![b'a'; sz(300_000)]); v.push(b'>'); v }));
+        shapes.push(("long-attr-value".into(), { let mut v = b"<a b='".to_vec(); v.extend(vec![b'v'; sz(300_000)]); v.extend_from_slice(b"'>"); v }));
+        shapes.push(("many-attrs".into(), { let mut v = b"<a".to_vec(); for i in 0..(sz(5000)) { v.extend_from_slice(format!(" a{i}=v").as_bytes()); } v.push(b'>'); v }));
+        shapes.push(("long-comment".into(), { let mut v = b"<!--".to_vec(); v.extend(vec![b'-'; sz(300_000)]); v.extend_from_slice(b"-->"); v }));
+        shapes.push(("unterminated-comment".into(), { let mut v = b"<!--".to_vec(); v.extend(vec![b'c'; sz(200_000)]); v }));
+        shapes.push(("many-end-tags".into(), b"</x>".repeat(sz(50_000))));
+        shapes.push(("lt-flood".into(), vec![b'<'; sz(200_000)]));
+        shapes.push(("script-escapes".into(), { let mut v = b"<script>".to_vec(); v.extend(b"<!--<script></script>-->".repeat(sz(10_000))); v }));
+        shapes.push(("cdata-flood".into(), { let mut v = b"<svg>".to_vec(); v.extend(b"<![CDATA[]]]]>".repeat(sz(20_000))); v }));
+        shapes.push(("high-bytes".into(), (0..(sz(300_000))).map(|i| 0x80 + (i % 0x80) as u8).collect()));
+        shapes.push(("many-valueless-attrs".into(), { let mut v = b"<div".to_vec(); for _ in 0..(sz(150_000)) { v.extend_from_slice(b" a"); } v.push(b'>'); v }));
+        shapes.push(("many-empty-value-attrs".into(), { let mut v = b"<div".to_vec(); for _ in 0..(sz(60_000)) { v.extend_from_slice(b" a= b=''"); } v.push(b'>'); v }));
+        shapes.push(("slash-flood-in-tag".into(), { let mut v = b"<a ".to_vec(); v.extend(vec![b'/'; sz(200_000)]); v.push(b'>'); v }));
+        shapes.push(("doctype-long".into(), { let mut v = b"<!DOCTYPE ".to_vec(); v.extend(vec![b'h'; sz(200_000)]); v.extend_from_slice(b" PUBLIC \""); v.extend(vec![b'p'; sz(100_000)]); v.extend_from_slice(b"\">"); v }));
+        shapes.push(("nested-foreign".into(), b"<svg><math><mi><svg><foreignObject>".repeat(sz(4_000))));
+        shapes.push(("many-selectors-deep".into(), b"<div class=c><a href=x>".repeat(sz(10_000))));
+        shapes
+    };
+    let scale = if quick { 1.0 } else { 4.0 };
+    let shapes = build_shapes(scale);
+    let shapes_half = build_shapes(scale / 2.0);
+    if only.is_none() {
+        // one child process per shape
+        let exe = std::env::current_exe().unwrap();
+        for (si, (name, _)) in shapes.iter().enumerate() {
+            let st = std::process::Command::new(&exe).args(["gen-c15-shape", tier, &seed.to_string(), out_dir, &si.to_string()])
+                .stdout(std::process::Stdio::null()).stderr(std::process::Stdio::null()).status();
+            let ok = matches!(&st, Ok(s) if s.success());
+            if !ok {
+                // the child died (stack exhaustion, abort, ...): drop its partial files, record the event
+                if let Ok(rd) = std::fs::read_dir(out_dir) { for f in rd.flatten() { if f.file_name().to_string_lossy().starts_with(&format!("c15s{si}-")) { let _ = std::fs::remove_file(f.path()); } } }
+                let how = match &st { Ok(s) => format!("{s}"), Err(e) => format!("{e}") };
+                let rec = json!({"id": format!("c15-shape-died-{name}"), "cfg": proto_cfg(&json!({}), vec![], &["C15"]), "hasref": false, "ref": [],
+                    "tl": [{"e":"call","op":"new"},{"e":"enc"},{"e":"ret","res":"ok"},{"e":"call","op":"write","b":[]},{"e":"ret","res":"panic"}]});
+                sh.push(&rec, &json!({"id": rec["id"], "shape": name, "process": how, "note": "the child process running this shape did not exit normally (1 MiB thread stack)"}), None, true);
+            }
+            big_runs += 1;
+        }
+    }
     let big_cfgs = [json!({}), json!({"elem":[{"sel":"*","element":[],"text":[],"comments":[]}],"doc":[{"text":[],"comments":[],"end":[]}]}),
         json!({"elem":[{"sel":"div div div a","element":[{"op":"append","a":["x"]}]},{"sel":"a > b:nth-child(2)","element":[]},{"sel":"*:not(p)","text":[]}]}),
         json!({"elem":[{"sel":"*","element":[{"op":"remove"}]}]})];
-    for (name, input) in &shapes {
+    for (sidx, (name, input)) in shapes.iter().enumerate() {
+        if only != Some(sidx) { continue; }
         for (ci, bc) in big_cfgs.iter().enumerate() {
             let enc = if ci == 1 { "shift_jis" } else { "utf-8" };
-            let cfg = gen::merge(bc, &json!({"strict": false, "enc": enc}));
+            let cfg = gen::merge(bc, &json!({"strict": false, "enc": enc, "light": true}));
             for cuts in [vec![], vec![input.len() / 3, input.len() / 2], (1..8).map(|i| i * 4096).filter(|&c| c < input.len()).collect::<Vec<_>>()] {
                 let dt = emit(&mut sh, &cfg, input, &cuts, &mut n, false);
                 big_runs += 1;
                 let us_per_kb = dt * 1e6 / ((input.len() as f64) / 1024.0);
                 if us_per_kb > max_us_per_kb { max_us_per_kb = us_per_kb; }
                 // "work stays proportional to input size", decided without a wall-clock threshold (which depends on the
-                // load of the machine): thread CPU time of the whole input against its first half.  Linear work gives a
+                // load of the machine): thread CPU time of the shape against the same shape built at half the size.  Linear work gives a
                 // ratio of 2, quadratic work 4.  Only runs long enough to measure are compared, and an excess has to be
                 // reproduced three times before it is reported.
                 if dt > 0.1 {
-                    let half = &input[..input.len() / 2];
-                    let hc: Vec<usize> = cuts.iter().cloned().filter(|&c| c < half.len()).collect();
+                    let half = &shapes_half[sidx].1[..];
+                    let hc: Vec<usize> = cuts.iter().map(|&c| c / 2).filter(|&c| c > 0 && c < half.len()).collect();
                     let measure = |inp: &[u8], cs: &[usize]| -> f64 {
                         let t = cpu_now();
                         let _ = driver::run(&cfg, inp, cs, &RunOpts { poke_after_error: true, ..RunOpts::default() });
@@ -567,11 +616,11 @@ pub fn job_c15(out_dir: &str, tier: &str, seed: u64) {
                         let th = measure(half, &hc).max(1e-6);
                         let tf = measure(input, &cuts);
                         ratio = ratio.min(tf / th);
-                        if ratio <= 3.3 { break; }
+                        if ratio <= 3.5 { break; }
                     }
                     growth_checks += 1;
                     if ratio > max_ratio { max_ratio = ratio; }
-                    if ratio > 3.3 {
+                    if ratio > 3.5 {
                         let rec = json!({"id": format!("c15-superlinear-{name}-{ci}"), "cfg": proto_cfg(&cfg, vec![], &["C15"]), "hasref": false, "ref": [],
                             "tl": [{"e":"call","op":"new"},{"e":"enc"},{"e":"ret","res":"ok"},{"e":"call","op":"write","b":[]},{"e":"ret","res":"panic"}]});
                         sh.push(&rec, &json!({"id": rec["id"], "superlinear_shape": name, "cpu_ratio_full_over_half": ratio, "cpu_us_per_kb": us_per_kb}), None, true);
@@ -581,12 +630,17 @@ pub fn job_c15(out_dir: &str, tier: &str, seed: u64) {
         }
     }
     // (3) with a memory limit the same shapes must fail cleanly, not panic
-    for (_name, input) in &shapes {
+    for (sidx, (_name, input)) in shapes.iter().enumerate() {
+        if only != Some(sidx) { continue; }
         let cfg = json!({"strict": false, "elem":[{"sel":"*","element":[],"text":[]}], "mem": {"max": 4096, "prealloc": 1024, "graceful": true}});
         emit(&mut sh, &cfg, input, &[input.len() / 2], &mut n, false);
         big_runs += 1;
     }
-    sh.finish(json!({"rule": "random bytes, balanced documents, fragment sequences, mutated fragment sequences, punctuation floods x 20 handler sets x all 36 encodings x strict/esi/meta-charset/memory/graceful/failure-injection settings x random cuts (bytes judged); 13 pathological shapes (25k-100k-deep nesting, 1-4 MB tokens, thousands of attributes, floods) x 4 handler configurations x 3 schedules judged on lengths against the stream-level contract, and, for every run above 0.1 s of CPU, on growth (thread CPU time of the whole shape over its first half must stay below 3.3; linear = 2, quadratic = 4; re-measured three times). Every call runs under catch_unwind in a build with debug assertions and overflow checks; a panic is an event the contract rejects. Non-trivial: every run.",
+    if only.is_some() {
+        sh.finish(json!({"pathological_runs": big_runs, "max_cpu_us_per_KiB": max_us_per_kb, "growth_checks": growth_checks, "max_cpu_ratio_full_over_half": max_ratio}));
+        return;
+    }
+    sh.finish(json!({"rule": "random bytes, balanced documents, fragment sequences, mutated fragment sequences, punctuation floods x 20 handler sets x all 36 encodings x strict/esi/meta-charset/memory/graceful/failure-injection settings x random cuts (bytes judged); 19 pathological shapes (25k-100k-deep nesting, 1-4 MB tokens, 10^5 attributes with / without values, floods), each in its own child process on a 1 MiB thread stack, x 4 handler configurations x 3 schedules judged on lengths against the stream-level contract, and, for every run above 0.1 s of CPU, on growth (thread CPU time of the shape over the same shape at half the size must stay below 3.5; linear = 2, quadratic = 4; re-measured three times). Every call runs under catch_unwind in a build with debug assertions and overflow checks; a panic is an event the contract rejects. Non-trivial: every run.",
         "pathological_runs": big_runs, "max_cpu_us_per_KiB": max_us_per_kb, "growth_checks": growth_checks, "max_cpu_ratio_full_over_half": max_ratio}));
 }
 
